@@ -192,6 +192,9 @@ func (fv *FV) execGhost(st *State, g *GhostStmt, pos token.Pos) {
 			st.ghost[id.Name] = cur
 		case *SField:
 			p := fv.spec(env, l.X)
+			if isUserByRef(p.T) {
+				p.T = types.NewPointer(p.T)
+			}
 			pt, ok := p.T.Underlying().(*types.Pointer)
 			if !ok {
 				fv.sfail("ghost field assignment through non-pointer")
